@@ -42,7 +42,6 @@ Definition marginal1 (shape : list nat) (k : nat) (a : list Qc) : list Qc :=
 
 Inductive mop := Amount (a : nat) | MinFreq (thr : Qc).
 
-Definition last_hi (l : list bin) : Qc := snd (last l (0, 0)).
 
 Definition merge_axis (op : mop) (h : hist) (k : nat) : option hist :=
   let shape := h_shape h in
